@@ -143,7 +143,7 @@ def _requirements(tier):
     req = {f"op:{o}": (100 if q else 2000) for o in OPS}
     req.update({
         "bystander-checks": 25000 if q else 500000,
-        "copy-identity-checks": 3000 if q else 60000, "copy-noop-conversion:form": 100 if q else 2000, "copy-noop-conversion:frame": 100 if q else 2000,
+        "copy-identity-checks": 3000 if q else 60000, "infos-check:compared": 10000 if q else 200000, "infos-consulted-before-op": 3000 if q else 60000, "copy-noop-conversion:form": 100 if q else 2000, "copy-noop-conversion:frame": 100 if q else 2000,
         "pickle-user-frame:after-name-reuse": 300 if q else 6000,
         "poke-checks": 1000,
         "pickle-compared": 200,
@@ -606,6 +606,13 @@ def run_histories(ctx, job, idx, rng, st):
         ctx.count("op:" + op)
         if te.unpickled:
             ctx.count("op-on-unpickled")
+        if rng.random() < 0.5:
+            # derived quantities consulted before the operation (they are computed from the object they are asked on)
+            try:
+                _ = (T.infos.kep.a, T.infos.r)
+                ctx.count("infos-consulted-before-op")
+            except Exception:
+                ctx.count("infos-consult-raised")
         before = pool.digests()
         new_obj = None
         expect_fail = False
@@ -770,8 +777,39 @@ def run_histories(ctx, job, idx, rng, st):
                     ctx.count(f"recorded:{op}-shares:coordinates")
                 normalise(new_obj)
                 pool.add(new_obj, label, group=te.group, allow_rot=te.allow_rot)
+        infos_check(pool, rng)
         if len(pool.entries) > 8:
             break
+
+
+def infos_check(pool, rng):
+    """What `.infos` reports for an object is computed from THAT object's current numbers: it equals what a brand-new
+    state holding the same numbers reports (whatever was consulted, copied or edited before)."""
+    from beyond.orbits import StateVector
+
+    ctx = pool.ctx
+    for e in pool.entries:
+        o = e.obj
+        if not coords_ok(o):
+            continue
+        try:
+            fresh = StateVector(np.array(o, dtype=float), o.date, o.form.name, o.frame)
+            exp = (float(fresh.infos.kep.a), float(fresh.infos.kep.e), float(fresh.infos.r), float(fresh.infos.v))
+        except Exception:
+            ctx.count("infos-check:fresh-object-raises")
+            continue
+        try:
+            got = (float(o.infos.kep.a), float(o.infos.kep.e), float(o.infos.r), float(o.infos.v))
+        except Exception as exc:
+            if e.unpickled:
+                ctx.count("infos-check:unpickled-raises")
+                continue
+            ctx.violation("C15/infos-raises", pool.wit(object=e.label, exc=repr(exc)), f"infos of {e.label} raised {exc!r}")
+            continue
+        ctx.count("infos-check:compared")
+        ok = all(g == x or abs(g - x) <= 1e-12 * max(1.0, abs(x)) for g, x in zip(got, exp))
+        ctx.expect(ok, "C15/derived-quantities-are-those-of-another-state", pool.wit(object=e.label, infos=list(got), of_a_fresh_state_with_the_same_numbers=list(exp)),
+                   f"{e.label}.infos reports a={got[0]!r}, r={got[2]!r}; a new state with the same numbers reports a={exp[0]!r}, r={exp[2]!r}")
 
 
 def pickle_user_frame(ctx, idx, rng, descr):
